@@ -26,6 +26,7 @@ type ChanObj struct {
 	onSend   FuncV
 	onRecv   FuncV
 	onClose  FuncV
+	capTerm  *Term
 	name     string
 	sends    int
 	recvs    int
@@ -34,6 +35,11 @@ type ChanObj struct {
 func (e *Engine) newChan(elemT types.Type, cap int) *ChanObj {
 	e.nextObj++
 	return &ChanObj{id: e.nextObj, elemT: elemT, cap: cap}
+}
+
+// ChanVAny wraps a channel object as an `any` holding a bidirectional channel value.
+func ChanVAny(c *ChanObj) Value {
+	return IfaceV{T: types.NewChan(types.SendRecv, c.elemT), V: ChanV{c}}
 }
 
 func (c *ChanObj) String() string {
@@ -87,6 +93,10 @@ func (e *Engine) doRecv(c *ChanObj, elemT types.Type) (Value, bool) {
 	e.tracef("recv %s ok=%v", c, ok)
 	if c.onRecv.Fn != nil {
 		e.callValue(c.onRecv, IfaceV{T: elemT, V: v}, e.tb.Bool(ok))
+	} else if e.onChanEvent.Fn != nil && !e.inChanEvent {
+		e.inChanEvent = true
+		e.callValue(e.onChanEvent, e.intConst(64, 1), ChanVAny(c), IfaceV{T: elemT, V: v}, e.tb.Bool(ok))
+		e.inChanEvent = false
 	}
 	return v, ok
 }
@@ -100,6 +110,10 @@ func (e *Engine) doSend(c *ChanObj, v Value, pos string) {
 	// the observer runs at the instant of the hand-over, before bookkeeping
 	if c.onSend.Fn != nil {
 		e.callValue(c.onSend, IfaceV{T: c.elemT, V: v})
+	} else if e.onChanEvent.Fn != nil && !e.inChanEvent {
+		e.inChanEvent = true
+		e.callValue(e.onChanEvent, e.intConst(64, 0), ChanVAny(c), IfaceV{T: c.elemT, V: v}, e.tb.Bool(true))
+		e.inChanEvent = false
 	}
 	switch {
 	case c.waiters > 0:
@@ -173,6 +187,10 @@ func (e *Engine) chanRecv(c *ChanObj, elemT types.Type, pos string) (Value, bool
 }
 
 func (e *Engine) chanSend(c *ChanObj, v Value, pos string) {
+	if !c.sendReady() && e.sinkAll && c != nil && !c.closed {
+		// an environment goroutine (not modelled here) drains this channel eventually
+		c.sink = true
+	}
 	if !c.sendReady() {
 		if !e.runHooks([]*ChanObj{c}, c.sendReady) {
 			e.abort("BLOCKED", "send on "+c.String()+" at "+pos)
@@ -233,6 +251,10 @@ func (e *Engine) selectOp(fr *Frame, x *ssa.Select) Value {
 		return
 	}
 	def, maybe := readySet()
+	if e.fairTicks && len(def) > 0 && e.lastTick[x] {
+		// fairness: a continuously enabled case is not passed over twice in a row
+		maybe = nil
+	}
 	chosen := -2
 	switch {
 	case len(def) > 0:
@@ -276,6 +298,12 @@ func (e *Engine) selectOp(fr *Frame, x *ssa.Select) Value {
 			opts := append(append([]int{}, d...), m...)
 			chosen = opts[e.choose(len(opts), "#select")]
 		}
+	}
+	if e.fairTicks {
+		if e.lastTick == nil {
+			e.lastTick = map[*ssa.Select]bool{}
+		}
+		e.lastTick[x] = chosen >= 0 && states[chosen].c != nil && states[chosen].c.ticker && len(def) > 0
 	}
 	// result tuple: (index, recvOk, r_0..)
 	res := TupleV{e.intConst(64, int64(chosen)), e.tb.Bool(false)}
